@@ -63,6 +63,14 @@ BAD = {
 }
 # values whose conversion SUCCEEDS with zero bytes: the artifact must still be created (and replace an earlier one)
 EMPTY_OUT = {"env": ["{}", "{nested = {a = 1}, items = [1, 2]}", "NULL", "[1]", "{a = NULL}"], "flags": ["{}"], "yamlmulti": ["[]"]}
+# values whose conversion is far larger than any writer's buffer (the artifact must be complete, to the last byte)
+BIGL = "map(func (i) => \"item-@\" %% (i), 0:%d)"
+BIGS = "reduce(func (acc, i) => acc + \"0123456789\", \"\", 1:%d)"
+BIG_OUT = {
+    "json": "{items = " + BIGL + ", s = " + BIGS + "}", "yaml": "{items = " + BIGL + ", s = " + BIGS + "}", "yamlmulti": BIGL, "toml": "{items = " + BIGL + ", s = " + BIGS + "}",
+    "env": "{A = " + BIGS + ", B = 1, C = " + BIGS + "}", "flags": "{l = " + BIGL + ", s = " + BIGS + "}",
+    "exec": "{command = \"echo\", args = " + BIGL + ", env = {E = " + BIGS + "}}", "xml": "{root = {name = \"a\", children = " + BIGL + ", attrs = {k = " + BIGS + "}}}",
+}
 CONSTRAINT_PROG = "constraint c = in 1..5;\nout %s {a = c};\n"
 
 
@@ -195,6 +203,8 @@ def task(args):
             scenario = r.choice(["fresh-good", "good-bad-good", "bad-first", "constraint", "zero-out", "two-outs", "good-good"])
             if fmt in EMPTY_OUT and r.random() < 0.35:
                 scenario = r.choice(["empty-fresh", "good-then-empty"])
+            if r.random() < 0.06:
+                scenario = "big-output"
             pl = Place(*r.choice(PLACES))
             os.makedirs(tp.path("other"), exist_ok=True)
             witness = {"format": fmt, "good": good_t, "scenario": scenario, "place": pl.as_json()}
@@ -207,6 +217,15 @@ def task(args):
             if scenario == "fresh-good":
                 tp.write(pl.src, "let v = %s;\nout %s v;\n" % (good_t, fmt))
                 judge_good(res, probe, tp, pl, fmt, ext, good_t, ["good"], witness)
+            elif scenario == "big-output":
+                n1, n2 = r.choice([(3000, 700), (1200, 2500), (4096, 4095)])
+                bt = BIG_OUT[fmt] % ((n1, n1) if BIG_OUT[fmt].count("%d") == 2 else ((n1,) if BIG_OUT[fmt].count("%d") == 1 else (n1, n1, n1)))
+                bt2 = BIG_OUT[fmt] % ((n2, n2) if BIG_OUT[fmt].count("%d") == 2 else ((n2,) if BIG_OUT[fmt].count("%d") == 1 else (n2, n2, n2)))
+                witness["good"], witness["good2"] = bt, bt2
+                tp.write(pl.src, "let v = %s;\nout %s v;\n" % (bt, fmt))
+                if judge_good(res, probe, tp, pl, fmt, ext, bt, ["big"], witness):
+                    tp.write(pl.src, "let v = %s;\nout %s v;\n" % (bt2, fmt))
+                    judge_good(res, probe, tp, pl, fmt, ext, bt2, ["big", "big2"], witness)
             elif scenario == "empty-fresh":
                 et = r.choice(EMPTY_OUT[fmt])
                 witness["good"] = et
